@@ -99,6 +99,12 @@ func (s *scope) runInitializers() error {
 	rootProvider.voidReturnScopedDescriptorsMu.RUnlock()
 
 	for _, descriptor := range initializers {
+		// An initializer that an earlier one depends on has already run (its marker is cached) and must not run again
+		_, done := s.getInstance(instanceKey{Type: descriptor.Type, Key: descriptor.Key, Group: descriptor.Group})
+		if done {
+			continue
+		}
+
 		if _, err := s.createInstance(descriptor); err != nil {
 			// Dispose what was created so far and cancel the derived context
 			_ = s.Close()
